@@ -223,12 +223,12 @@ P("C11", "proof", "Lean 4 theorems for both encodings (render lemma: pushing the
   "domain and long random `.`/`..` mixes. The colon hypothesis is real: normalize(`a\\C:`) pushes `C:` back as a "
   "drive (names with `:` are invalid on Windows, so this is outside 'well-formed'). absolutize = join onto cwd then "
   "normalize: oracle for absolute inputs only. Model=code by differential testing.",
-  theorems=["TP.C11.unix_normalize_comps", "TP.C11.unix_normalize_no_dots", "TP.C11.unix_normalize_keeps_root",
+  theorems=["TP.C11c.unix_absolutize_absolute", "TP.C11c.unix_absolutize_relative", "TP.C11c.unix_absolutize_idempotent", "TP.C11c.win_absolutize_relative", "TP.C11.unix_normalize_comps", "TP.C11.unix_normalize_no_dots", "TP.C11.unix_normalize_keeps_root",
             "TP.C11.unix_normalize_idempotent", "TP.C11.render_shape", "TP.C11.normFold_comps_shape",
             "TP.C11b.win_normalize_comps", "TP.C11b.win_normalize_no_dots", "TP.C11b.win_normalize_keeps_head",
             "TP.C11b.win_normalize_idempotent", "TP.C11b.pushAll_names", "TP.C11b.normFold_pre",
             "TP.C12d.win_normalize_verbatim", "TP.C12d.win_normalize_verbatim_no_dots", "TP.C12d.pushAll_names_verbatim"],
-  modules=["TypedPathVerif.Props.C11b", "TypedPathVerif.Props.C12d"],
+  modules=["TypedPathVerif.Props.C11c", "TypedPathVerif.Props.C11b", "TypedPathVerif.Props.C12d"],
   rule=NONTRIV + "all strings over {sep, .., ., a} up to 6 tokens x prefixes, long random mixes; non-trivial = contains `.` or `..` and >= 2 components", design_ref="§5 C11")
 
 P("C12", "proof", "Lean 4 theorems (law B; list lemma on the dot split) + model/code correspondence; replacement clause by oracle",
